@@ -141,4 +141,18 @@ def pendingIn (s : State) (b : Nat) : Nat := countIn b (s.pending.map (·.2))
 def recordedIn (s : State) (b : Nat) : Nat := s.recorded.count b
 
 end Legacy
+/-- thread `t`, scheduled alone, runs on until it stands in front of its next reporter call (`some b`: it has just
+swapped the non-zero cell of bucket `b`) or has walked all buckets (`none`): it first makes the reporter call it
+was parked in front of, then visits the buckets in order from `pos` (`histogram.report`: `for i := range h.buckets`) -/
+def walk (t : Nat) : Nat → State → Nat → List Ev → Option (State × List Ev × Nat × Option Nat)
+  | 0, _, _, _ => none
+  | fuel + 1, s, b, acc =>
+    if b < s.cells.length then
+      let c := s.cells.getD b 0
+      match step s (.swap t b) with
+      | none => none
+      | some s' => if c = 0 then walk t fuel s' (b + 1) (acc ++ [.swap t b]) else some (s', acc ++ [.swap t b], b + 1, some b)
+    else some (s, acc, b, none)
+
+
 end Tally.HistPass
